@@ -9,8 +9,8 @@ CONSTANTS
   DecTab <- DecCvx
   StepsA = {3, 48}
   StepsD = {5}
-  StepsR = {8}
-  Sustains = {0, 8}
+  StepsR = {8, 64}
+  Sustains = {0, 8, 16}
   TabShape = "convex"
   Emit = FALSE
 VIEW MCView
